@@ -267,7 +267,7 @@ def structured_cases(rng, lzo):
             cases.append(("corre-count", fb1(0, 0, 20, 10, 4, struct.pack(">I", n) + b"\x01" * bp + (b"\x02" * bp + bytes([1, 1, 2, 2])) * min(n, 4))))
             cases.append(("rre-count", fb1(0, 0, 20, 10, 2, struct.pack(">I", n) + b"\x01" * bp + (b"\x02" * bp + struct.pack(">HHHH", 1, 1, 2, 2)) * min(n, 4))))
         for ln in [0, 1, (1 << 20) - 1, 1 << 20, (1 << 20) + 1, 1 << 31, (1 << 32) - (1 << 20), (1 << 32) - 1]:
-            cases.append(("cut-cap", struct.pack(">BxxxI", 3, ln) + b"t" * min(ln if ln < (1 << 31) else (1 << 32) - ln, 1 << 20)))
+            cases.append(("cut-cap", struct.pack(">BxxxI", 3, ln) + b"t" * min(ln if ln < (1 << 31) else (1 << 32) - ln, (1 << 20) + 2)))
         for (cw, ch) in [(0, 5), (1023, 1), (1024, 1), (1, 1024), (1023, 1023), (65535, 65535)]:
             cases.append(("cursor-size", fb1(0, 0, cw, ch, E.ENC["richcursor"], b"\x00" * 64)))
             cases.append(("cursor-size", fb1(0, 0, cw, ch, E.ENC["xcursor"], b"\x00" * 64)))
@@ -359,7 +359,7 @@ def run(ctx):
     cases = []
     if ctx.replay:
         rec = json.load(open(ctx.replay))
-        cases = [{"script": "\n".join(rec.get("script", [])) + "\n", "kind": "replay", "expect_false": None, "tag": "replay"}]
+        cases = [{"script": "\n".join((rec.get("script") or (rec.get("first_disagreement") or {}).get("script") or [])) + "\n", "kind": "replay", "expect_false": None, "tag": "replay"}]
     else:
         cdir = os.path.join(common.VERIF, "corpus", "C08")
         for f in sorted(os.listdir(cdir)) if os.path.isdir(cdir) else []:
